@@ -64,6 +64,7 @@ KEY_D8 = "C12/D8/batched-neardegenerate-nonaxis"
 KEY_D8B = "C12/D8b/batched-exact-pivot-tie-nonaxis"
 KEY_D23 = "C12/D23/eig-zero-deviator-diagonal"
 KEY_D24 = "C12/D24/eig-single-call-circulant-nan"
+KEY_D8C = "C12/D8c/single-call-fused-function-exact-tie"
 KEY_D17 = "C12/D17/sqrt-singular-psd-nonaxis"
 KEY_D17B = "C12/D17b/sqrt-singular-psd-axis-aligned"
 KEY_D21 = "C12/D21/pow-jvp-batched-exactly-repeated"
@@ -306,6 +307,13 @@ def judge(res, clause, err, allowed, known=None, key=None, detail=None, tag=None
     else:
         keys = None
     known = onp.zeros(N, dtype=bool) if known is None else onp.asarray(known, dtype=bool)
+    # D8c: in a SINGLE compiled call the eigen-routine alone is exact on exact-tie tensors (D25 repaired), but fused with a
+    # consumer (exp/log/sqrt/pow and their JVPs) XLA may again evaluate the tied selector inconsistently (jit(exp_symm) of
+    # [[-6,7,1.75],[7,0,7],[1.75,7,-6]] is off by 9e-8 relative while jit(eigen_sym33_unit) and the eager call are exact).
+    # So for clauses that are not about the bare decomposition, the single-mode exact-tie class carries the open D8c key.
+    fusedSingle = (_CTX.get("mode") == "single") and not clause.startswith("eig.")
+    if fusedSingle and keys is not None:
+        keys = [KEY_D8C if k == KEY_D23 else k for k in keys]
     with onp.errstate(all="ignore"):
         ratio = onp.where(onp.isfinite(err), err / allowed, onp.inf)
     ratio = onp.where(onp.isnan(ratio), onp.inf, ratio)
@@ -337,7 +345,10 @@ def judge(res, clause, err, allowed, known=None, key=None, detail=None, tag=None
                 offd = T.copy()
                 offd[[0, 1, 2], [0, 1, 2]] = 0.0
                 if "b_zero" in sf or d23_signature(T):
-                    found = KEY_D8B if (_CTX.get("mode") == "batched" and onp.any(offd != 0.0)) else KEY_D23
+                    found = KEY_D8B if (_CTX.get("mode") == "batched" and onp.any(offd != 0.0)) else (KEY_D8C if fusedSingle else KEY_D23)
+                    break
+                if fusedSingle and (sf & {"pivot_tie", "a_tie", "fac_tie"}) and onp.any(offd != 0.0):
+                    found = KEY_D8C
                     break
                 if _CTX.get("mode") == "batched" and (sf & {"pivot_tie", "a_tie", "fac_tie"}) and onp.any(offd != 0.0):
                     found = KEY_D8B
